@@ -35,6 +35,7 @@ func (p *vfC17Probe) ServeDNS(ctx context.Context, ch *middleware.Chain) {
 
 func TestVerifC17AccessList(t *testing.T) {
 	defer vfstat.Flush()
+	vfstat.Quiet()
 	const U = "C17.accesslist"
 	rapid.Check(t, func(rt *rapid.T) {
 		cidrs, parsed := vfgen.GenCIDRList(rt, 10)
